@@ -19,7 +19,10 @@ namespace Cocls.Gen
 
 /-- one statement of the generator body -/
 inductive Act
-  | yield (v : Nat)     -- co_yield v
+  | yield (v : Nat)     -- co_yield v   (a fresh local or a temporary holding v)
+  | yieldAcc (c : Nat)  -- `acc.append(c); co_yield acc;`: the body extends a variable of its own and yields *that variable* (an
+                        -- lvalue it keeps using: the next `yieldAcc` builds on what the variable holds then, and on resumption
+                        -- the body looks at it: `Ev.acc`). With digits c the variable holds the decimal number of the digits so far
   | yieldNull           -- co_yield nullptr   (reads the current argument, does not suspend)
   | awaitReady          -- co_await <ready awaitable>
   | pause               -- co_await cocls::pause(): the body goes to the tail of its thread's coroutine queue and whatever is queued
@@ -93,6 +96,7 @@ inductive Ev
   | fawait (i : Item)      -- the coroutine parked in `co_await f` continued
   | fhas (b : Bool)        -- the coroutine parked in `co_await f.has_value()` continued
   | dtor (g : Nat)         -- guard g of the body was destroyed
+  | acc (v : Nat)          -- the body, resumed from `co_yield acc`, looked at its variable: it holds v
   deriving DecidableEq, Repr
 
 inductive Res
@@ -117,6 +121,8 @@ structure State where
   made     : Nat           -- guards constructed so far
   resolved : List Nat      -- awaited operations completed so far
   alive    : Bool          -- the generator object (and the frame) exists
+  acc      : Nat           -- the body's accumulator variable (a local of the frame)
+  atAcc    : Bool          -- the body is parked at `co_yield acc`: `_ret` designates the variable itself (`ret` is what reading it gives)
   -- generator::promise_type
   caller   : Caller
   ifn      : IFn
@@ -134,6 +140,8 @@ structure State where
   awtKind  : AwtKind       -- which external awaiter the last `next_async` armed
   kept     : Option Nat    -- the kept `auto n = gen.next(a)` object (with the argument it was created with), if any
   kstate   : Bool          -- its `mutable bool _state`: a consultation has answered true
+  coro     : Bool          -- execution context of the consumer's code: true = it runs inside a coroutine (its thread is in
+                           -- coroutine mode, `coro_queue::is_active()`), false = ordinary code
   -- ghost
   script0  : List Act      -- the whole body
   lastArg  : Nat           -- argument of the most recent access
@@ -145,14 +153,16 @@ structure State where
   post     : List Item     -- the part of `seen` answered without resuming the body (it had finished before)
   gotLog   : List (Nat × Nat)   -- (argument received by the body, argument of the most recent access)
   dtors    : List Nat      -- guards destroyed, in order
+  accLog   : List (Nat × Nat)   -- (what the body yielded from its variable, what the variable held when the body was resumed)
+  qinst    : Nat           -- activations of the body for which `resume_in_queue` installed (and flushed) a queue of its own
   deriving Repr
 
 def init (mode : Bool) (script : List Act) : State :=
-  { mode := mode, script := script, bst := .init, live := [], made := 0, resolved := [], alive := true,
+  { mode := mode, script := script, bst := .init, live := [], made := 0, resolved := [], alive := true, acc := 0, atAcc := false,
     caller := .none, ifn := .null, arg := none, ret := none, exp := false, done := false, block := false,
-    awaiting := false, cons := .idle, fut := .none, reader := none, it := none, awtKind := .coro, kept := none, kstate := false,
+    awaiting := false, cons := .idle, fut := .none, reader := none, it := none, awtKind := .coro, kept := none, kstate := false, coro := false,
     script0 := script, lastArg := 0, stuck := false, ub := false, evs := [], seen := [], obs := [], post := [],
-    gotLog := [], dtors := [] }
+    gotLog := [], dtors := [], accLog := [], qinst := 0 }
 
 /-! ### reading the hand-over record -/
 
@@ -223,7 +233,18 @@ def finish (s : State) (threw : Bool) : State :=
 
 /-- `co_yield v`: `yield_value` stores the address, `yield_suspend` hands over -/
 def yieldAt (s : State) (v : Nat) : State :=
-  deliver { s with bst := .yield, ret := some v }
+  deliver { s with bst := .yield, ret := some v, atAcc := false }
+
+/-- `acc.append(c); co_yield acc;` — `yield_value(Ret &)` stores the address of the body's variable. Nothing in the hand-over writes
+through `_ret`: the future of a call is resolved with a *copy* (`_awaiting(*_ret)`), `value()` / `*it` hand out a reference. -/
+def yieldAccAt (s : State) (c : Nat) : State :=
+  deliver { s with bst := .yield, acc := s.acc * 10 + c, ret := some (s.acc * 10 + c), atAcc := true }
+
+/-- resumed from `co_yield acc`, the body looks at its variable -/
+def seeAcc (s : State) : State :=
+  if s.atAcc then
+    { s with atAcc := false, evs := s.evs ++ [.acc s.acc], accLog := s.accLog ++ [(s.ret.getD 0, s.acc)] }
+  else s
 
 /-- `await_resume` of `yield_suspend` / `yield_null`: `*_arg` -/
 def recvArg (s : State) : State :=
@@ -236,6 +257,7 @@ def recvArg (s : State) : State :=
 def exec : List Act → State → State
   | [], s => finish s false
   | .yield v :: rest, s => yieldAt { s with script := rest } v
+  | .yieldAcc c :: rest, s => yieldAccAt { s with script := rest } c
   | .yieldNull :: rest, s => exec rest (recvArg { s with script := rest })
   | .awaitReady :: rest, s => exec rest { s with script := rest }
   | .pause :: rest, s => exec rest { s with script := rest }
@@ -250,9 +272,16 @@ def exec : List Act → State → State
 def resumeBody (s : State) : State :=
   match s.bst with
   | .init => exec s.script { s with bst := .run }
-  | .yield => exec s.script (recvArg { s with bst := .run })
+  | .yield => exec s.script (seeAcc (recvArg { s with bst := .run }))
   | .await _ => exec s.script { s with bst := .run }
   | _ => { s with ub := true }
+
+/-- `promise_type::resume_in_queue(h)` — how `next_sync`, `next_future` and `next_awt::subscribe` (the accesses made by
+non-awaiting code) activate the body: `if (coro_queue::is_active()) h.resume(); else coro_queue::install_queue_and_resume(h);`.
+Either way the body runs **now**, inside the call, under a coroutine queue: the one of the consumer's coroutine, or one installed for
+this activation and flushed before the call returns (counted in `qinst`). -/
+def resumeInQueue (s : State) : State :=
+  resumeBody (if s.coro then s else { s with qinst := s.qinst + 1 })
 
 /-! ### consumer operations -/
 
@@ -274,7 +303,7 @@ def endSync (s : State) (kind : SyncKind) (b : Bool) : State × Res :=
 def syncGo (s : State) (kind : SyncKind) : State × Res :=
   if s.done then endSync { s with seen := s.seen ++ [.fin], post := s.post ++ [.fin] } kind false
   else if s.bst == .final then ({ s with seen := s.seen ++ [.nomore], post := s.post ++ [.nomore] }, .nomore)
-  else (resumeBody { s with block := false, caller := .internal, ifn := .sync, cons := .inSync kind }, .started)
+  else (resumeInQueue { s with block := false, caller := .internal, ifn := .sync, cons := .inSync kind }, .started)
 
 def stepSyncBegin (s : State) (kind : SyncKind) (a : Nat) : State × Res :=
   if !s.alive then (s, .gone)
@@ -317,7 +346,7 @@ def subGo (s : State) : State × Res :=
   if s.bst == .final then
     ({ s with caller := .awt, stuck := true, seen := s.seen ++ [.nomore], post := s.post ++ [.nomore],
               evs := s.evs ++ [.sub .nomore] }, .unit)
-  else (resumeBody { s with caller := .awt, cons := .parked, awtKind := .cb }, .unit)
+  else (resumeInQueue { s with caller := .awt, cons := .parked, awtKind := .cb }, .unit)
 
 def stepSub (s : State) (a : Nat) : State × Res :=
   if !s.alive then (s, .gone)
@@ -375,7 +404,7 @@ def futRes (s : State) : State × Res :=
 /-- `gen(a)` → `next_future`: `h.done()` → throw; else `_awaiting = promise`, arm `_internal`, `h.resume()` -/
 def callGo (s : State) : State × Res :=
   if s.bst == .final then ({ s with seen := s.seen ++ [.nomore], post := s.post ++ [.nomore] }, .nomore)
-  else futRes (resumeBody { s with awaiting := true, caller := .internal, ifn := .future, fut := .pending })
+  else futRes (resumeInQueue { s with awaiting := true, caller := .internal, ifn := .future, fut := .pending })
 
 def stepCall (s : State) (a : Nat) : State × Res :=
   if !s.alive then (s, .gone)
@@ -484,6 +513,7 @@ inductive Op
   | futWait | futGet | futAwait | futHas
   | itBegin | itInc | itDeref | itIsEnd | itPostInc | itDrop
   | complete (k : Nat) | destroy
+  | ctx (coro : Bool)     -- the consumer's following operations are issued from inside a running coroutine (true) / by ordinary code
   deriving DecidableEq, Repr
 
 def step (s : State) : Op → State × Res
@@ -509,18 +539,24 @@ def step (s : State) : Op → State × Res
   | .itDrop => ({ s with it := none }, .unit)
   | .complete k => stepComplete s k
   | .destroy => stepDestroy s
+  | .ctx b => ({ s with coro := b }, .unit)
 
 def run (s : State) (ops : List Op) : State := ops.foldl (fun st op => (step st op).1) s
 
 /-! ### the specification side: what a script yields -/
 
-/-- the values yielded before the first `throw` / `co_return` (or the end of the script) -/
-def yields : List Act → List Nat
-  | [] => []
-  | .yield v :: r => v :: yields r
-  | .throw :: _ => []
-  | .ret :: _ => []
-  | _ :: r => yields r
+/-- the values yielded before the first `throw` / `co_return` (or the end of the script) by a body whose accumulator variable
+holds `acc`: read off the script with the body's own arithmetic, no library step involved -/
+def yieldsFrom : Nat → List Act → List Nat
+  | _, [] => []
+  | acc, .yield v :: r => v :: yieldsFrom acc r
+  | acc, .yieldAcc c :: r => (acc * 10 + c) :: yieldsFrom (acc * 10 + c) r
+  | _, .throw :: _ => []
+  | _, .ret :: _ => []
+  | acc, _ :: r => yieldsFrom acc r
+
+/-- … by the whole body (its variable starts empty) -/
+def yields (sc : List Act) : List Nat := yieldsFrom 0 sc
 
 /-- how the body ends: with the escaping exception or regularly -/
 def ending : List Act → Item
@@ -530,7 +566,9 @@ def ending : List Act → Item
   | _ :: r => ending r
 
 /-- what the consumer must see, access by access, until the body has ended -/
-def expected (sc : List Act) : List Item := (yields sc).map .val ++ [ending sc]
+def expectedFrom (acc : Nat) (sc : List Act) : List Item := (yieldsFrom acc sc).map .val ++ [ending sc]
+
+def expected (sc : List Act) : List Item := expectedFrom 0 sc
 
 /-! ### The unrepaired synchronous access (pinned commit, before `/repo` commit 191263e)
 
@@ -542,6 +580,7 @@ body ran on a thread without a coroutine queue, and `co_await pause()` — `paus
 def execAsIs : List Act → State → State
   | [], s => finish s false
   | .yield v :: rest, s => yieldAt { s with script := rest } v
+  | .yieldAcc c :: rest, s => yieldAccAt { s with script := rest } c
   | .yieldNull :: rest, s => execAsIs rest (recvArg { s with script := rest })
   | .awaitReady :: rest, s => execAsIs rest { s with script := rest }
   | .pause :: rest, s => { s with script := rest, ub := true }
@@ -555,7 +594,7 @@ def execAsIs : List Act → State → State
 def resumeBodyAsIs (s : State) : State :=
   match s.bst with
   | .init => execAsIs s.script { s with bst := .run }
-  | .yield => execAsIs s.script (recvArg { s with bst := .run })
+  | .yield => execAsIs s.script (seeAcc (recvArg { s with bst := .run }))
   | .await _ => execAsIs s.script { s with bst := .run }
   | _ => { s with ub := true }
 
@@ -568,5 +607,23 @@ def stepSyncBeginAsIs (s : State) (kind : SyncKind) (a : Nat) : State × Res :=
   else if (setArg s a).done then syncGo (setArg s a) kind
   else if (setArg s a).bst == .final then syncGo (setArg s a) kind
   else (resumeBodyAsIs { setArg s a with block := false, caller := .internal, ifn := .sync, cons := .inSync kind }, .started)
+
+/-! ### The unrepaired `it++` (before `/repo` commit 6a6ab43)
+
+`generator_iterator::operator++(int)` built its stored copy with `storage z{std::move(_gen->value())}`: `value()` is the object
+the body passed to `co_yield`; when that is a variable the body keeps using, the post-increment *emptied the body's variable*
+(a moved-from accumulator holds nothing: 0 here) before it resumed the body. -/
+
+/-- `it++` as the pinned commit had it (before `/repo` commit 6a6ab43 "fix: generator_iterator::operator++(int) moved the current
+value out of the generator body's own variable") -/
+def stepItPostIncAsIs (s : State) : State × Res :=
+  if !s.alive then (s, .gone)
+  else if inSync s then (s, .blocked)
+  else if s.caller != .none then (s, .busy)
+  else if s.mode then (s, .na)
+  else if s.it.isNone then (s, .noit)
+  else match readVal s with
+    | .val v => syncGo (setArg (if s.atAcc then { s with acc := 0 } else s) 0) (.itPost (.val v))
+    | other => (s, .item other)
 
 end Cocls.Gen
